@@ -87,6 +87,8 @@ impl SegmentIndexWriter {
         if self.fsync {
             let _ = self.fsync().await;
         }
+        #[cfg(feature = "iggy_verif")]
+        crate::verif::fs_event("index_append", &self.file_path).await;
         self.index_size_bytes
             .fetch_add(INDEX_SIZE, Ordering::Release);
         Ok(())
